@@ -128,7 +128,7 @@ func ruleL5(c *Ctx) {
 					R.Fail("L5w", at+"=", pos, fmt.Sprintf("%s is initialised by the owner's sync.Once but is also stored here, outside it: readers that passed the Once do not synchronise with this write", id))
 				default:
 					ap, okp := pathOf(info, se.X)
-					fresh := okp && valuePath(ap) && la.isFresh(f, ap.Root, 0)
+					fresh := okp && la.freshPath(f, ap)
 					goBefore := false
 					ast.Inspect(f.Root().Body, func(y ast.Node) bool {
 						if g, ok := y.(*ast.GoStmt); ok && g.Pos() < se.Pos() {
